@@ -267,6 +267,9 @@ func (p *Parent) runStage(s Stage, bin string) {
 				p.inconclusive++
 				p.inconclWhy["watchdog fired in stage "+s.Name]++
 			}
+		case r.NotRun:
+			p.inconclusive++
+			p.inconclWhy["a child of stage "+s.Name+" could not be run (host resources)"]++
 		case r.Crashed:
 			if s.CrashInconclusive {
 				p.inconclusive++
@@ -390,9 +393,14 @@ func (p *Parent) runBatch(s Stage, bin string, b int, timeout int) BatchResult {
 			r.LastCase = r.LastCase[:1<<16]
 		}
 		r.LogTail = logExcerpt(filepath.Join(dir, "log"))
-		if code == 124 || code == 137 {
+		switch {
+		case code == 124 || code == 137:
 			r.TimedOut = true
-		} else {
+		case code == -1:
+			// the child could not be started or waited for (fork/exec failure on an
+			// exhausted host): not an observation of golua at all
+			r.NotRun = true
+		default:
 			r.Crashed = true
 		}
 	}
